@@ -17,7 +17,7 @@ Generated definitions (namespace MpVerif.Gen.SolGuards), each `Outcome Int` over
   opts_header_text o0 o2 / opts_header_bin o0 o2   option-count check 3..9 and the vbtol flag (-1 = bad, else 2*(nOpts+5)+need_vbtol)
   is_opts_record L                   binary: does the record length L announce an Options record
   rec_len j                          binary: record length of a vector of j reals (uiolen arithmetic)
-  suffix_is_real kind                reader: `SR.h.kind & 4`
+  suffix_is_real_bin / _text kind    reader: `SR.h.kind & 4` in bsufread / gsufread
   w_kind_mask kind / w_is_output kind    writer (include/mp/sol.h): kind printed in the suffix header, OUTPUT filter
 plus (structure tie, A') the ordered list of format strings the writer prints:
   writer_formats : List String
@@ -128,10 +128,11 @@ def build_tu(repo):
     parts.append('int lget_step(int L, int c) {\n%s  return L;\n}\n' % loop)
 
     # ---- option header, text and binary
-    t = cut(rd, '        nOpts = Options[0];\n        if (nOpts < 3 || nOpts > 9)\n          goto bad_nOpts;', '        for(j = 4; j < je; j++) {', 'options header (text)')
+    t = cut(rd, '        nOpts = Options[0];', '        for(j = 4; j < je; j++) {', 'options header (text)')
     t = rewrite(t, [(r'Options\[0\]', 'o0', 1), (r'Options\[2\]', 'o2', 1), (r'goto bad_nOpts;', 'return -1;', 1)], 'options header (text)')
     parts.append('int opts_header_text(Long o0, Long o2) {\n  Long nOpts = 0; int need_vbtol = 0; int je = 0;\n%s  return je * 2 + need_vbtol;\n}\n' % t)
-    b = cut(rd, '      nOpts = Options[0];\n      if (nOpts < 3 || nOpts > 9) {', '      if (!fread((char *)(Options+4), sizeof(Long),', 'options header (binary)')
+    b = cut(rd, 'return ReportEarlyEof();\n      nOpts = Options[0];', '      if (!fread((char *)(Options+4), sizeof(Long),', 'options header (binary)')
+    b = b[len('return ReportEarlyEof();\n'):]
     b = rewrite(b, [(r'Options\[0\]', 'o0', 1), (r'Options\[2\]', 'o2', 1), (r'bad_nOpts:', '', 1), (r'serror\([^)]*\);', ';', 1),
                     (r'return ReportBadFormat\(\);', 'return -1;', 1)], 'options header (binary)')
     parts.append('int opts_header_bin(Long o0, Long o2) {\n  Long nOpts = 0; int need_vbtol = 0;\n%s  return ((int)(nOpts+5)) * 2 + need_vbtol;\n}\n' % b)
@@ -145,17 +146,22 @@ def build_tu(repo):
     if rd.count('		L1 = NumAlgCons() * sizeof(real);') != 1 or rd.count('    L1 = i * sizeof(real);') != 1:
         raise TranslateError('record length: the other two `L1 = <count> * sizeof(real)` statements changed')
 
-    # ---- suffix kind test in both suffix readers
-    if rd.count('    if (SR.h.kind & 4) {        // real-valued') != 2:
-        raise TranslateError('suffix kind test `SR.h.kind & 4` expected twice (bsufread, gsufread)')
-    parts.append('int suffix_is_real(int kind) {\n  if (kind & 4) return 1;\n  return 0;\n}\n'.replace('kind & 4', re.search(r'if \(SR\.h\.(kind & 4)\)', rd).group(1)))
+    # ---- suffix kind test in both suffix readers (bsufread first, gsufread second)
+    tests = re.findall(r'if \(SR\.h\.(kind [^)]*)\) \{        // real-valued', rd)
+    if len(tests) != 2:
+        raise TranslateError('suffix kind test `if (SR.h.kind ...) {        // real-valued` expected twice (bsufread, gsufread), found %d' % len(tests))
+    for nm, ex in zip(('suffix_is_real_bin', 'suffix_is_real_text'), tests):
+        parts.append('int %s(int kind) {\n  if (%s) return 1;\n  return 0;\n}\n' % (nm, ex))
 
-    # ---- writer: kind mask and OUTPUT filter (include/mp/sol.h, WriteSuffixes)
-    m = cut(wr, '    int mask = internal::SUFFIX_KIND_MASK | suf::FLOAT | suf::IODECL;', '\n', 'writer kind mask')
-    if wr.count('i->kind() & mask,') != 1 or wr.count('if ((i->kind() & suf::OUTPUT) == 0)\n      continue;') != 1:
-        raise TranslateError('writer: kind mask use / OUTPUT filter changed')
-    parts.append('} // namespace\nnamespace mp { namespace solguards_w {\nint w_kind_mask(int kind) {\n%s\n  return kind & mask;\n}\n' % m)
-    parts.append('int w_is_output(int kind) {\n  if ((kind & suf::OUTPUT) == 0)\n    return 0;\n  return 1;\n}\n} }\n')
+    # ---- writer: kind mask and OUTPUT filter (include/mp/sol.h, WriteSuffixes); markers do not contain the decisions themselves
+    mm = re.findall(r'\n(    int mask = [^;]*;)', wr)
+    if len(mm) != 1 or wr.count('i->kind() & mask,') != 1:
+        raise TranslateError('writer: `int mask = ...;` / its use `i->kind() & mask,` not found exactly once')
+    ff = re.findall(r'if \(\((i->kind\(\) & [\w:]+\) == 0)\)\n\s*continue;', wr)
+    if len(ff) != 1:
+        raise TranslateError('writer: the filter `if ((i->kind() & <flag>) == 0) continue;` not found exactly once')
+    parts.append('} // namespace\nnamespace mp { namespace solguards_w {\nint w_kind_mask(int kind) {\n%s\n  return kind & mask;\n}\n' % mm[0])
+    parts.append('int w_is_output(int kind) {\n  if ((%s)\n    return 0;\n  return 1;\n}\n} }\n' % ff[0].replace('i->kind()', 'kind'))
     return ''.join(parts), rd, wr
 
 
@@ -170,7 +176,7 @@ def writer_formats(wr):
     return fm, [x.strip() for x in kinds.group(1).split(',')]
 
 
-FUNCS = ['count_guard', 'sufheadcheck', 'lget_step', 'opts_header_text', 'opts_header_bin', 'is_opts_record', 'rec_len', 'suffix_is_real',
+FUNCS = ['count_guard', 'sufheadcheck', 'lget_step', 'opts_header_text', 'opts_header_bin', 'is_opts_record', 'rec_len', 'suffix_is_real_bin', 'suffix_is_real_text',
          'w_kind_mask', 'w_is_output']
 
 
@@ -180,7 +186,7 @@ def main():
     try:
         tu_text, rd, wr = build_tu(repo)
         common = open(os.path.join(repo, 'include', 'mp', 'common.h')).read()
-        for nm in ('FLOAT', 'IODECL', 'OUTPUT', 'SUFFIX_KIND_MASK'):
+        for nm in ('FLOAT', 'IODECL', 'OUTPUT', 'INPUT', 'OUTONLY', 'SUFFIX_KIND_MASK'):
             mm = re.findall(r'\b%s\s*=\s*(0x[0-9a-fA-F]+|\d+)\s*[,/\n]' % nm, common)
             if len(mm) != 1:
                 raise TranslateError('enumerator %s: %d definitions with a literal value in common.h (expected 1)' % (nm, len(mm)))
